@@ -103,9 +103,16 @@ var posParamKeys = []string{"UnstakingTime", "MaxValidators", "StakeDenom", "Sta
 	"MaxEvidenceAge", "SignedBlocksWindow", "MinSignedPerWindow", "DowntimeJailDuration", "SlashFractionDoubleSign", "SlashFractionDowntime"}
 
 func AllParamNames() []string {
-	l := []string{"auth/MaxMemoCharacters", "auth/TxSigLimit", "auth/FeeMultipliers", "gov/acl", "gov/daoOwner", "gov/upgrade"}
-	for _, k := range posParamKeys {
-		l = append(l, "pos/"+k)
+	// the keys each module registers (`ParamSetPairs`), under its subspace name
+	var l []string
+	for _, pr := range (&authTypes.Params{}).ParamSetPairs() {
+		l = append(l, "auth/"+string(pr.Key))
+	}
+	for _, pr := range (&govTypes.Params{}).ParamSetPairs() {
+		l = append(l, "gov/"+string(pr.Key))
+	}
+	for _, pr := range (&posTypes.Params{}).ParamSetPairs() {
+		l = append(l, "pos/"+string(pr.Key))
 	}
 	sort.Strings(l)
 	return l
